@@ -628,8 +628,15 @@ class Array(metaclass=MetaArray):
             # dynamically sized items: update them in place, one by one, so
             # that the size of the array, the position of its items and the
             # space reserved for each of them stay as fixed at creation
-            for index in self._iter_index():
-                self[index] = get_item(value, index)
+            # (all or nothing: the previous content comes back if an item
+            # refuses its new value)
+            backup = self._buffer.to_bytearray(self._offset, self._get_size())
+            try:
+                for index in self._iter_index():
+                    self[index] = get_item(value, index)
+            except Exception:
+                self._buffer.update_from_buffer(self._offset, backup)
+                raise
         elif fits:
             info = self.__class__._inspect_args(value)
             if info.size > self._get_size():  # size is fixed at creation
